@@ -296,6 +296,46 @@ def spaces(tier, variant, seed):
 
     sp.append(Space("get_str_powers", OUT_BASES, pw_cases, pw_one, "b^k-1, b^k, b^k+1 (both signs) for k in 0..23,31..33,63..65,100,127..129,200,300 and 0..69, in every base"))
 
+    # mpz_sizeinbase on b^k and b^k - 1 for EVERY k up to a few thousand and a few very large k, every base 2..62: its per-base constant
+    # (digits per bit) is multiplied by the bit length, so an error in a table entry shows only from some size on
+    KMAX = 2600 if quick else 9000
+    KBIG = (5000, 20000, 60000, 150000) if quick else (12000, 20000, 60000, 150000, 400000)
+
+    def sb_cases(blk):
+        base, part = blk
+        yield (base, part)
+
+    def sb_one(case, R):
+        base, part = case
+        set_cfg()
+        z = env()["z"][0]
+        pow2 = base & (base - 1) == 0
+
+        def chk(v, nd, what):
+            z.set(v)
+            sib = f_sizeinbase(z.p, base)
+            if sib != nd and (pow2 or sib != nd + 1):
+                R.fail("mpz_sizeinbase", "%s in base %d: got %d, it has exactly %d digits" % (what, base, sib, nd))
+            z.set(-v)
+            if f_sizeinbase(z.p, base) != sib:
+                R.fail("mpz_sizeinbase", "-(%s) in base %d differs from the positive value" % (what, base))
+        if part == 0:
+            v = 1
+            for k in range(1, KMAX + 1):
+                v *= base
+                chk(v, k + 1, "%d^%d" % (base, k))
+                chk(v - 1, k, "%d^%d-1" % (base, k))
+        else:
+            for k in KBIG:
+                v = base ** k
+                chk(v, k + 1, "%d^%d" % (base, k))
+                chk(v - 1, k, "%d^%d-1" % (base, k))
+        R.count("sizeinbase_values", 4 * (KMAX if part == 0 else len(KBIG)))
+        return ("sib", base, part)
+
+    sp.append(Space("sizeinbase_powers", [(b, part) for b in range(2, 63) for part in (0, 1)], sb_cases, sb_one,
+                    "mpz_sizeinbase(+-b^k) and (+-(b^k-1)) for every k = 1..%d and k in %s, every base 2..62: exact for powers of two, exact or exact+1 otherwise" % (KMAX, list(KBIG))))
+
     # ---------------- input side ----------------
     def make_digits(length, pat, base):
         top = base - 1
